@@ -496,6 +496,13 @@ impl<D: Store + Mk> GarnishData for Mon<D> {
     fn start_list(&mut self, len: usize) -> Result<usize, DataError> {
         self.tick()?;
         self.data_budget()?;
+        // a list announced larger than the data budget would be refused cell by cell anyway (and BasicGarnishData
+        // reserves 2*len cells up front): refuse it here, before the allocation. Lengths in the top half of the
+        // range are let through: nothing can be allocated for them, only the size arithmetic can go wrong
+        if len > self.max_data.saturating_add(16) && len <= usize::MAX / 2 {
+            self.budget_hit = Some("data");
+            return Err(DataError::from("verif budget: data (list length)".to_string()));
+        }
         self.d.start_list(len)
     }
     fn add_to_list(&mut self, l: usize, i: usize) -> Result<usize, DataError> {
